@@ -173,6 +173,11 @@ class Code:
         with np.errstate(all="ignore"):
             return np.asarray(self.pi.modified_cholesky(np.array(M, dtype=float), float(thr)))
 
+    def numpy_chol_int(self, M, thr):
+        """the same routine handed an integer ndarray (integer-valued matrices are legal symmetric PSD input)"""
+        with np.errstate(all="ignore"):
+            return np.asarray(self.pi.modified_cholesky(np.array(np.rint(M), dtype=np.int64), float(thr)))
+
     def chunked_chol(self, mol, thr):
         # default buffer (cmax * nao = 10 nao vectors) is ample for these molecules (rank <= nao (nao + 1) / 2 <= 28)
         with np.errstate(all="ignore"):
@@ -279,6 +284,11 @@ def run(chk: Check):
             push(repro_record(0, M, L, t), routine="numpy", inst=I["id"], thr=t, rank=rank, n=n, model_ok=mok,
                  model_nvec=mnv,
                  M=M.tolist(), nontrivial=L is not None and L.shape[0] > 0, exception=exc)
+        if np.array_equal(M, np.rint(M)):        # integer-valued instance: also presented as an integer ndarray
+            for t in thrs[:2]:
+                L, exc = attempt(code.numpy_chol_int, M, t)
+                push(repro_record(0, M, L, t), routine="numpy", inst=f"{I['id']}-int64", thr=t, rank=rank, n=n, model_ok=None,
+                     M=M.tolist(), nontrivial=L is not None and L.shape[0] > 0, exception=exc)
         L, exc = attempt(code.jax_chol, M, rank)
         push(repro_record(0, M, L, 0.0), routine="jax", inst=I["id"], cnt=rank, rank=rank, n=n, M=M.tolist(),
              nontrivial=True, exception=exc)
@@ -470,7 +480,7 @@ def report(chk, recs, info, verdicts):
                      f"(rank {rk})",
             "jax": f"linalg_utils.modified_cholesky(M, norb, {k.get('cnt')}) on a {k['n']}x{k['n']} PSD matrix of rank {rk}",
             "jvp": f"jax.jvp of M -> Gram(linalg_utils.modified_cholesky(M, norb, {rk})), {k['n']}x{k['n']}",
-            "chunked": f"pyscf_interface.chunked_cholesky({k['inst'] if '/' in k['inst'] else k['inst'] + '/sto-3g'}, {k.get('thr')})",
+            "chunked": f"pyscf_interface.chunked_cholesky({str(k['inst']) if '/' in str(k['inst']) else str(k['inst']) + '/sto-3g'}, {k.get('thr')})",
         }[k["routine"]]
         qty = "max|jvp - exact tangent (TLC)|" if k["routine"] == "jvp" else "max|M - sum_g L_g L_g^T|"
         if k.get("exception"):
